@@ -10,7 +10,10 @@
      * every mutation attempted on a collection while an iteration over it was in
        progress was refused and left the content unchanged,
      * every mutation attempted on a non-frozen collection with no iteration in
-       progress was accepted ("as soon as the iteration ends ... mutable again"). *)
+       progress was accepted ("as soon as the iteration ends ... mutable again"),
+     * a Starlark statement that mutates a collection being iterated over makes
+       the call fail, and afterwards every collection holds exactly its initial
+       elements plus the additions made outside any iteration. *)
 From Coq Require Import ZArith List Bool.
 Import ListNotations.
 Open Scope Z_scope.
@@ -23,7 +26,11 @@ Record after := mkAfter {
   f_probe : list bool;
   f_depth : Z;
   f_rerun : bool;
-  f_attempts : list attempt
+  f_attempts : list attempt;
+  f_content : list (list Z);     (* what each collection holds afterwards *)
+  f_expected : list (list Z);    (* its initial elements plus the additions made outside any iteration *)
+  f_must_fail : bool;            (* the program reaches a mutation of a collection it is iterating over *)
+  f_failed : bool                (* the call returned an error *)
 }.
 
 Definition attempt_ok (a : attempt) : bool :=
@@ -36,6 +43,12 @@ Fixpoint unlocked (fz : list bool) (ics : list Z) : bool :=
   | _, _ => true
   end.
 
+Fixpoint zl_eqb (a b : list Z) : bool :=
+  match a, b with [], [] => true | x :: a', y :: b' => (x =? y) && zl_eqb a' b' | _, _ => false end.
+Fixpoint zll_eqb (a b : list (list Z)) : bool :=
+  match a, b with [], [] => true | x :: a', y :: b' => zl_eqb x y && zll_eqb a' b' | _, _ => false end.
+
 Definition spec_after (a : after) : bool :=
   unlocked (f_frozen a) (f_ic a) && forallb (fun b => b) (f_probe a) &&
-  (f_depth a =? 0) && f_rerun a && forallb attempt_ok (f_attempts a).
+  (f_depth a =? 0) && f_rerun a && forallb attempt_ok (f_attempts a) &&
+  zll_eqb (f_content a) (f_expected a) && (negb (f_must_fail a) || f_failed a).
